@@ -1155,7 +1155,9 @@ class TableDescription(ViewRepresentation):
     def __eq__(self, other):
         if not isinstance(other, TableDescription):
             return False
-        return self.key.__eq__(other.key)
+        if not self.key.__eq__(other.key):
+            return False
+        return self._equiv_nodes(other)
 
     def __hash__(self):
         return self.key.__hash__()
